@@ -55,7 +55,9 @@ def share_mount_point(rng, app, ids):
 
 def mk(rng):
     ids = appgen.Ids()
-    app = split_items(rng, share_mount_point(rng, appgen.gen_app(rng, ids, fangs=False, local=False), ids))
+    app = share_mount_point(rng, appgen.gen_app(rng, ids, fangs=False, local=False, free=rng.random() < 0.4), ids)
+    appgen.dedupe(app)          # route/method pairs stay distinct over the tree
+    app = split_items(rng, app)
     paths = appgen.request_paths(rng, app, 16)
     reqs = []
     for p in paths:
@@ -78,7 +80,13 @@ def corpus():
     shared = {'fangs': [], 'items': [R('/api', 1, ['GET']), {'mount': '/api', 'app': {'fangs': [], 'items': [R('/', 2, ['POST']), R('/z', 3, ['DELETE'])]}}]}
     sreqs = [pf('/api', 'GET'), pf('/api', 'POST'), pf('/api', 'PUT'), pf('/api/z', 'DELETE'), pf('/api/z', 'GET'), {'m': 'GET', 'p': hx('/api'), 'origin': True, 'acrm': None, 'acrh': None}]
     shared2 = {'fangs': [], 'items': [{'mount': '/api', 'app': {'fangs': [], 'items': [R('/', 2, ['POST'])]}}, R('/api', 1, ['GET', 'PUT'])]}
-    return [{'case': {'cors': p, 'app': app, 'reqs': reqs}} for p in pols] + [{'case': {'cors': pols[1], 'app': a, 'reqs': sreqs}} for a in (shared, shared2)]      # was: /x advertised `POST, OPTIONS` only; the successful preflight had no declared length
+    # fixed by 5f01ca3 / 8878fb7: one pattern under two param names; a route of the parent below the prefix of a mount with a static twin
+    names = {'fangs': [], 'items': [R('/:name', 1, ['GET', 'PATCH']), R('/:p', 2, ['PUT']), R('/t/:a/x', 3, ['GET']), {'mount': '/t/:b', 'app': {'fangs': [], 'items': [R('/x', 4, ['DELETE'])]}}]}
+    nreqs = [pf('/q', 'GET'), pf('/q', 'PUT'), pf('/q', 'PATCH'), pf('/q', 'DELETE'), pf('/t/1/x', 'GET'), pf('/t/1/x', 'DELETE'), pf('/t/1/x', 'POST')]
+    twin = {'fangs': [], 'items': [R('/a/b', 1, ['GET']), {'mount': '/a', 'app': {'fangs': [], 'items': [R('/b', 2, ['POST']), R('/b/c', 3, ['GET'])]}}, R('/a/b/c', 4, ['PUT'])]}
+    treqs = [pf('/a/b', 'GET'), pf('/a/b', 'POST'), pf('/a/b', 'PUT'), pf('/a/b/c', 'GET'), pf('/a/b/c', 'PUT'), pf('/a/b/c', 'POST')]
+    return ([{'case': {'cors': p, 'app': app, 'reqs': reqs}} for p in pols] + [{'case': {'cors': pols[1], 'app': a, 'reqs': sreqs}} for a in (shared, shared2)]
+            + [{'case': {'cors': pols[1], 'app': names, 'reqs': nreqs}}, {'case': {'cors': pols[0], 'app': twin, 'reqs': treqs}}])      # was: /x advertised `POST, OPTIONS` only; the successful preflight had no declared length
 
 
 def generate(rng, tier):
